@@ -4,17 +4,11 @@ package c03
 
 import (
 	"bytes"
-	"crypto/sha256"
-	"encoding/binary"
 	"errors"
 	"fmt"
-	"hash/adler32"
-	"hash/crc32"
-	"math/rand"
 	"strings"
 	"sync"
 	"sync/atomic"
-	"unicode/utf8"
 
 	"github.com/wollac/iota-crypto-demo/pkg/bip39"
 	"github.com/wollac/iota-crypto-demo/pkg/bip39/wordlist"
@@ -22,6 +16,7 @@ import (
 
 	"verif/harness/fw"
 	"verif/harness/oracle/bip39m"
+	"verif/harness/prop/wordhack"
 )
 
 func init() {
@@ -30,7 +25,7 @@ func init() {
 		DeadlockIsViolation: true,                       // the calls of this property are synchronous functions of their inputs: a call blocked for good inside the library is a violation
 		Builds:              []string{"default", "386"}, // the 386 build runs 1/4 of the random classes on a 32-bit target
 		Scale386:            4,
-		Rule: "wordlist: all 2048 indices of both built-in lists are read through EntropyToMnemonic (11 chosen indices per call) and compared with the official lists (embedded, SHA-256 checked against the published digests). encode: both lists x all 13 entropy lengths x {all-zero, all-one, k leading zero bytes for every k, trailing zero bytes, a single set bit at every position, random} plus sizes 0..70 for the size rule; sentence equality with the bit-level model and decode(encode(e)) == e. decode: valid sentences, the last word replaced by every word sharing its entropy bits (exactly one checksum value is accepted), one word replaced, rotations, lengths 0..50, words of the other list, NFC-composed words, empty strings, and (decode_collide) a list word replaced by a non-word found by search to collide with it under FNV-1a/32, FNV-1/32, CRC-32, CRC-32C, Adler-32, h*31+c, h*33+c, folded FNV-1a/64 or truncated SHA-256: accept iff the model accepts, entropy equality, re-encode fixed point, error class on reject. lists: every eighth case is preceded by a SetWordList call with an unregistered key (it must fail; the list of the last successful call stays in force); a user-defined list (English reversed, registered through RegisterWordList with a constructor that calls back into SetWordList) is selected for a few cases between the built-in ones; decode also gets sentences in which two adjacent words sit in one element. concurrent: 8 goroutines encode and decode entropies of all 13 sizes at once under one word list. " +
+		Rule: "wordlist: all 2048 indices of both built-in lists are read through EntropyToMnemonic (11 chosen indices per call) and compared with the official lists (embedded, SHA-256 checked against the published digests). encode: both lists x all 13 entropy lengths x {all-zero, all-one, k leading zero bytes for every k, trailing zero bytes, a single set bit at every position, random} plus sizes 0..70 for the size rule; sentence equality with the bit-level model and decode(encode(e)) == e. decode: valid sentences, the last word replaced by every word sharing its entropy bits (exactly one checksum value is accepted), one word replaced, rotations, lengths 0..50, words of the other list, NFC-composed words, empty strings, and (decode_collide) a list word replaced by a non-word found by search to collide with it under FNV-1a/32, FNV-1/32, CRC-32, CRC-32C, Adler-32, h*31+c, h*33+c, folded FNV-1a/64 or truncated SHA-256: accept iff the model accepts, entropy equality, re-encode fixed point, error class on reject. lists: every eighth case is preceded by a SetWordList call with an unregistered key (it must fail; the list of the last successful call stays in force); a user-defined list (English reversed, registered through RegisterWordList with a constructor that calls back into SetWordList) is selected for a few cases between the built-in ones; decode also gets sentences in which two adjacent words sit in one element, and sentences with words cut to their unique four-letter prefix. concurrent: 8 goroutines encode and decode entropies of all 13 sizes at once under one word list. " +
 			"Non-trivial: distinct (list, entropy) with a zero leading byte or more than 32 bytes, and distinct rejected sentences.",
 		Assumptions: []string{"SHA-256 of the Go standard library", "the embedded official word lists (checked against the published SHA-256 digests of english.txt and japanese.txt)", "the bit-level model in harness/oracle/bip39m (self-tested on Trezor vectors)"},
 		SelfTest:    bip39m.SelfTest,
@@ -500,6 +495,23 @@ func gen(g *fw.Gen) {
 				w[a], w[b] = w[b], w[a]
 				emitWords(g, l, w)
 			}
+			if n%16 == 8 { // a word cut to its first four letters (the well-known unique abbreviation): not a list word
+				for _, j := range g.Rng.Perm(len(words)) {
+					if p4, ok := wordhack.Prefix4(list, words[j]); ok {
+						m := append([]string(nil), words...)
+						m[j] = p4
+						if g.Rng.Intn(3) == 0 { // all words abbreviated where possible
+							for k := range m {
+								if q, ok := wordhack.Prefix4(list, words[k]); ok {
+									m[k] = q
+								}
+							}
+						}
+						emitWords(g, l, m)
+						break
+					}
+				}
+			}
 			if n%16 == 0 { // two adjacent words in ONE element (joined by a blank, an ideographic space, a tab): not a word
 				j := g.Rng.Intn(len(words) - 1)
 				sepc := []string{" ", "\u3000", "\t", "  "}[g.Rng.Intn(4)]
@@ -510,23 +522,16 @@ func gen(g *fw.Gen) {
 		// non-words that collide with a list word under a common 32-bit digest (a word index keyed by a
 		// hash of the word that never confirms the string): found by search, put in place of that word in an
 		// otherwise valid sentence. A 64-bit or keyed digest is out of reach of this search.
-		for hi, hf := range digests {
+		for hi, hf := range wordhack.Digests {
 			if !g.Own(hi+int(l)) && g.Quick() {
 				continue // quick tier: every digest function is searched by one shard per list
 			}
-			table := make(map[uint32]int, 2048)
-			for idx, w := range list.Words {
-				table[hf.f([]byte(w))] = idx
-			}
-			for found, tries := 0, 0; found < g.Pick(3, 12) && tries < 40000000; tries++ {
-				cand := randomNonWord(g.Rng, l)
-				idx, hit := table[hf.f(cand)]
-				if !hit {
+			for found, tries := 0, 0; found < g.Pick(3, 12) && tries < 16; tries++ {
+				cs, idx, okc := wordhack.FindCollision(g.Rng, list, l, hf, 10000000)
+				if !okc {
 					continue
 				}
-				if _, isWord := list.Index[string(cand)]; isWord {
-					continue
-				}
+				cand := []byte(cs)
 				found++
 				e := g.Bytes(16 + 4*g.Rng.Intn(13))
 				j := g.Rng.Intn(len(e) * 8 / 11) // a word whose 11 bits lie entirely in the entropy
@@ -541,7 +546,7 @@ func gen(g *fw.Gen) {
 				}
 				emitWords(g, l, w)
 				w[j] = string(cand)
-				g.Emit("decode_collide", fw.Pack([]byte{l}, []byte(strings.Join(w, "\x00")), []byte(hf.name)))
+				g.Emit("decode_collide", fw.Pack([]byte{l}, []byte(strings.Join(w, "\x00")), []byte(hf.Name)))
 			}
 		}
 		for n := g.ShareOf(16, 800); n > 0; n-- {
@@ -567,76 +572,4 @@ func gen(g *fw.Gen) {
 			emitWords(g, l, list.Encode(e))
 		}
 	}
-}
-
-type digest struct {
-	name string
-	f    func([]byte) uint32
-}
-
-var digests = []digest{
-	{"FNV-1a/32", func(b []byte) uint32 {
-		h := uint32(2166136261)
-		for _, c := range b {
-			h = (h ^ uint32(c)) * 16777619
-		}
-		return h
-	}},
-	{"FNV-1/32", func(b []byte) uint32 {
-		h := uint32(2166136261)
-		for _, c := range b {
-			h = h*16777619 ^ uint32(c)
-		}
-		return h
-	}},
-	{"CRC-32 (IEEE)", crc32.ChecksumIEEE},
-	{"CRC-32C (Castagnoli)", func(b []byte) uint32 { return crc32.Checksum(b, castagnoli) }},
-	{"Adler-32", adler32.Checksum},
-	{"h*31+c (Java hashCode)", func(b []byte) uint32 {
-		h := uint32(0)
-		for _, c := range b {
-			h = h*31 + uint32(c)
-		}
-		return h
-	}},
-	{"h*33+c (djb2)", func(b []byte) uint32 {
-		h := uint32(5381)
-		for _, c := range b {
-			h = h*33 + uint32(c)
-		}
-		return h
-	}},
-	{"FNV-1a/64 folded to 32 bits", func(b []byte) uint32 {
-		h := uint64(14695981039346656037)
-		for _, c := range b {
-			h = (h ^ uint64(c)) * 1099511628211
-		}
-		return uint32(h>>32) ^ uint32(h)
-	}},
-	{"first 4 bytes of SHA-256", func(b []byte) uint32 {
-		d := sha256.Sum256(b)
-		return binary.BigEndian.Uint32(d[:4])
-	}},
-}
-
-var castagnoli = crc32.MakeTable(crc32.Castagnoli)
-
-// randomNonWord draws a short string in the script of the list (lower-case letters / hiragana incl. the
-// combining voicing marks).
-func randomNonWord(r *rand.Rand, l byte) []byte {
-	if l == 0 {
-		b := make([]byte, 4+r.Intn(5))
-		for i := range b {
-			b[i] = byte('a' + r.Intn(26))
-		}
-		return b
-	}
-	var out []byte
-	for n := 2 + r.Intn(5); n > 0; n-- {
-		out = utf8.AppendRune(out, rune(0x3042+r.Intn(0x52)))
-		if r.Intn(6) == 0 {
-			out = utf8.AppendRune(out, 0x3099)
-		}
-	}
-	return out
 }
